@@ -48,6 +48,7 @@ RULE += (" Every eighth program and every fifth query starts from the object one
 RULE += (' What a query returns is written into and the query repeated: the second answer must equal the first (no hidden state shared with the answer). After a program on a receiver opened from disk the source is closed: the files derived from it must be unchanged.')
 RULE += (' One receiver from disk in three (plain files) is written with netCDF4 directly, as other tools write archive files: float data variables packed (int16 with scale_factor/add_offset), masks as _FillValue; the oracle snapshots what the opened file delivers.')
 RULE += (' Attribute values of the generated files include arrays in the non-native byte order that own their data.')
+RULE += (' One in-memory IOAPI receiver in six has a listed variable deleted beforehand (bookkeeping behind the variables); half of those programs start with subsetVariables.')
 ASSUMPTIONS = [
     'getVarlist() with its default update=True is a documented mutator and '
     'is not treated as a query',
@@ -284,6 +285,29 @@ def run_program_in(spec, res, d, h):
         if g is not None:
             f = g
             res.facet('source:disk')
+    first = None
+    if 'ioapi' in spec['file'] and not rdr and not ops.on_disk(f) and \
+            spec['prog_seed'] % 6 == 2:
+        # a receiver whose bookkeeping is behind its variables (the user
+        # deleted a listed variable): still a file no operation may modify
+        listed = [k for k in getattr(f, 'VAR-LIST', '').split()
+                  if k in f.variables]
+        try:
+            if len(listed) >= 2:
+                del f.variables[listed[-1]]
+        except Exception:
+            # (lazily built variables of a reader file cannot be deleted)
+            listed = []
+        if len(listed) >= 2:
+            res.facet('ioapi:listed-variable-deleted-before')
+            if spec['prog_seed'] % 12 == 2:
+                keep = [listed[0]]
+
+                def first(cur):
+                    return 'subset', (
+                        'subsetVariables(%s)' % keep,
+                        (lambda: cur.subsetVariables(list(keep))), [], True,
+                        {'keys': keep})
     trace = []
     derived = []
     source = f
@@ -345,7 +369,7 @@ def run_program_in(spec, res, d, h):
     if spec.get('fn'):
         allowed = list(ops.CORE_OPS) + list(ops.FN_OPS) * 2
     ops.run_program(f, spec['prog_seed'], spec['nops'], allowed=allowed,
-                    on_step=on_step)
+                    on_step=on_step, first=first)
     if derived and ops.on_disk(source) and hasattr(source, 'close'):
         # closing is local: the files derived from a file on disk are other
         # files, and closing the source must leave each of them as it was
